@@ -354,7 +354,14 @@ class EtherCat(Protocol):
                    sent = True
                    if not self.send_queue.empty():
                        continue
-                except OverflowError:
+                except OverflowError as e:
+                    if not dgrams:
+                        # does not even fit into an empty packet: it never
+                        # will, so tell the caller instead of retrying forever
+                        if not future.done():
+                            future.set_exception(e)
+                        sent = True
+                        continue
                     sent = False
                 ensure_future(self.process_packet(dgrams, packet))
                 dgrams = []
